@@ -42,6 +42,24 @@ theorem iss_shape (sec : Option Bytes) (tree : Tree) (i : Int) (s c : Bytes)
         have e := Prod.mk.inj (Except.ok.inj h)
         exact ⟨q, par, ((v, s0), path), rfl, hi'.1, rfl, e.1.symm, e.2.symm⟩
 
+/-- … and it answers exactly for `0 ≤ script_num < number of leaves` (a negative index is refused, not read from the
+    end), once the output side has answered for the key and the tree -/
+theorem iss_answers (sec : Option Bytes) (tree : Tree) (i : Int) (r : Bytes × Nat × Bytes)
+    (hk : outputPubkeyAndInternalKey o H sec (some tree) = .ok r) :
+    (0 ≤ i ∧ i < (leaves H tree).length → ∃ s c, inputScriptSig o H sec tree i = .ok (s, c)) ∧
+    (¬ (0 ≤ i ∧ i < (leaves H tree).length) → inputScriptSig o H sec tree i = .error .index) := by
+  obtain ⟨q, par, xb⟩ := r
+  unfold inputScriptSig
+  rw [hk]
+  constructor
+  · intro hi
+    simp only [hi, not_true_eq_false, and_self, ↓reduceIte]
+    have hlt : i.toNat < (leaves H tree).length := by omega
+    rw [List.getElem?_eq_getElem hlt]
+    exact ⟨_, _, rfl⟩
+  · intro hi
+    simp only [hi, not_false_eq_true, ↓reduceIte]
+
 /-- bytes 1..32 of the control block are the x-only internal key -/
 theorem controlBlock_key (par v : Nat) (xb path : Bytes) (hx : xb.length = 32) :
     ((controlBlock par v xb path).drop 1).take 32 = xb := by
@@ -57,5 +75,105 @@ theorem iss_xonly (sec : Bytes) (hne : sec ≠ []) (hx : (xOnly sec).length = 32
     | cons _ _ => rfl
   rw [this] at hc
   rw [hc]; exact controlBlock_key _ _ _ _ hx
+
+
+/-! ## the tree, position by position -/
+
+theorem leaves_fst (t : Tree) : (leaves H t).map (·.1) = t.flatten := by
+  induction t with
+  | leaf v s => rfl
+  | node l r ihl ihr =>
+    rw [leaves_node, List.map_append, List.map_map, List.map_map]
+    show (leaves H l).map (·.1) ++ (leaves H r).map (·.1) = _
+    rw [ihl, ihr]; rfl
+
+theorem leaves_length (t : Tree) : (leaves H t).length = t.flatten.length := by
+  rw [← leaves_fst H t, List.length_map]
+
+/-- `tree_helper`'s answer IS the list of (leaf, path) over the positions in tree order -/
+theorem leaves_eq_positions (t : Tree) :
+    (leaves H t).map some = t.positions.map (fun p => (t.leafAt p).map (fun lf => (lf, pathOf H t p))) := by
+  induction t with
+  | leaf v s => rfl
+  | node l r ihl ihr =>
+    rw [leaves_node, List.map_append, List.map_map, List.map_map]
+    show _ = (l.positions.map (false :: ·) ++ r.positions.map (true :: ·)).map _
+    rw [List.map_append, List.map_map, List.map_map]
+    congr 1
+    · have := congrArg (List.map (Option.map (fun x : LeafInfo => (x.1, x.2 ++ root H r)))) ihl
+      rw [List.map_map, List.map_map] at this
+      refine Eq.trans (Eq.trans ?_ this) ?_
+      · apply List.map_congr_left; intro x _; rfl
+      · apply List.map_congr_left; intro p _
+        show Option.map _ (Option.map _ (l.leafAt p)) = Option.map _ (l.leafAt p)
+        cases l.leafAt p <;> rfl
+    · have := congrArg (List.map (Option.map (fun x : LeafInfo => (x.1, x.2 ++ root H l)))) ihr
+      rw [List.map_map, List.map_map] at this
+      refine Eq.trans (Eq.trans ?_ this) ?_
+      · apply List.map_congr_left; intro x _; rfl
+      · apply List.map_congr_left; intro p _
+        show Option.map _ (Option.map _ (r.leafAt p)) = Option.map _ (r.leafAt p)
+        cases r.leafAt p <;> rfl
+
+theorem positions_length (t : Tree) : t.positions.length = (leaves H t).length := by
+  have := congrArg List.length (leaves_eq_positions H t)
+  simpa using this.symm
+
+/-- the `i`-th entry of `tree_helper`'s answer is the leaf at the `i`-th position with that position's path -/
+theorem leaves_get (t : Tree) (i : Nat) (lf : LeafInfo) (h : (leaves H t)[i]? = some lf) :
+    ∃ p, t.positions[i]? = some p ∧ t.leafAt p = some lf.1 ∧ lf.2 = pathOf H t p := by
+  have e := congrArg (·[i]?) (leaves_eq_positions H t)
+  simp only [List.getElem?_map, h, Option.map_some] at e
+  cases hp : t.positions[i]? with
+  | none => rw [hp] at e; cases e
+  | some p =>
+    rw [hp] at e
+    simp only [Option.map_some] at e
+    cases hl : t.leafAt p with
+    | none => rw [hl] at e; cases e
+    | some x =>
+      rw [hl] at e
+      simp only [Option.map_some, Option.some.injEq] at e
+      exact ⟨p, rfl, by rw [e]; exact hl, by rw [e]⟩
+
+/-- **the control-block path proves its leaf, for EVERY tree shape** (induction over the tree): at every position that
+    holds a leaf, the path has one 32-byte node per level, the position is no deeper than the tree, and folding the
+    leaf's hash up the path — `k < e` deciding the order, which is the sort `tree_helper` applied going down — is the
+    merkle root -/
+theorem pathOf_folds {H : TagHash} (h32 : Len32 H) : ∀ (t : Tree) (p : List Bool) (v : Nat) (s : Bytes),
+    t.leafAt p = some (v, s) →
+    (pathOf H t p).length = 32 * p.length ∧ p.length ≤ t.depth ∧
+    foldPath H (leafHash H v s) (pathOf H t p) p.length = root H t ∧ v &&& LEAF_MASK = v
+  | .leaf v0 s0, [], v, s, h => by
+    simp only [Tree.leafAt, Option.some.injEq, Prod.mk.injEq] at h
+    obtain ⟨rfl, rfl⟩ := h
+    exact ⟨rfl, Nat.le_refl _, rfl, mask_idem v0⟩
+  | .leaf _ _, _ :: _, _, _, h => by cases h
+  | .node _ _, [], _, _, h => by cases h
+  | .node l r, false :: p, v, s, h => by
+    obtain ⟨h1, h2, h3, h4⟩ := pathOf_folds h32 l p v s h
+    refine ⟨by simp [pathOf, h1, root_length h32 r]; omega, by simp [Tree.depth]; omega, ?_, h4⟩
+    show foldPath H _ (pathOf H l p ++ root H r) (p.length + 1) = _
+    rw [foldPath_append H p.length _ _ _ h1 (root_length h32 r), h3, foldStep_left, root_node]
+  | .node l r, true :: p, v, s, h => by
+    obtain ⟨h1, h2, h3, h4⟩ := pathOf_folds h32 r p v s h
+    refine ⟨by simp [pathOf, h1, root_length h32 l]; omega, by simp [Tree.depth]; omega, ?_, h4⟩
+    show foldPath H _ (pathOf H r p ++ root H l) (p.length + 1) = _
+    rw [foldPath_append H p.length _ _ _ h1 (root_length h32 l), h3, foldStep_right, root_node]
+
+/-- a control block for a leaf deeper than `MAX_TREE_DEPTH` is refused as too long, whatever key or script (so a leaf
+    below depth 128 has no control block to be spent with); at depth ≤ 128 the length gate passes with `m` = depth -/
+theorem depth_gate (q s : Bytes) (c0 : UInt8) (xb path : Bytes) (d : Nat) (hx : xb.length = 32)
+    (hp : path.length = 32 * d) :
+    (c0 :: (xb ++ path)).length = 33 + 32 * d ∧
+    (128 < d → checkOutputPubkey o H q s (c0 :: (xb ++ path)) = .error .toolong) ∧
+    (d ≤ 128 → lengthGate (c0 :: (xb ++ path)).length = .ok (d : Int)) := by
+  have hl : (c0 :: (xb ++ path)).length = 33 + 32 * d := by simp [hx, hp]; omega
+  refine ⟨hl, fun hd => ?_, fun hd => ?_⟩
+  · unfold checkOutputPubkey lengthGate
+    have : (c0 :: (xb ++ path)).length > CONTROL_HEAD + NODE_SIZE * MAX_TREE_DEPTH := by
+      rw [hl]; show 33 + 32 * d > 33 + 32 * 128; omega
+    rw [if_pos this]; rfl
+  · rw [lengthGate_spec]; rw [hl]; omega
 
 end Btc.Taproot
